@@ -148,6 +148,11 @@ Theorem replicate_rejects_wrong_length : forall (K : FieldOps) (P : proto K) ss 
   p_extract (rep_proto P) ss c zs = Some a -> List.length zs = List.length ss.
 Proof. exact @rep_extract_length_. Qed.
 Print Assumptions replicate_rejects_wrong_length.
+(** the length condition is an equality: a surplus (or missing) response makes the verifier reject *)
+Theorem replicate_rejects_surplus_or_missing_responses : forall (K : FieldOps) (P : proto K) ss c zs,
+  List.length zs <> List.length ss -> p_extract (rep_proto P) ss c zs = None.
+Proof. exact @rep_extract_wrong_length_none_. Qed.
+Print Assumptions replicate_rejects_surplus_or_missing_responses.
 
 (** context binding under V1 for contexts of any (different) lengths *)
 Theorem context_binding_v1_any_length : forall (K : FieldOps) (H : bytes -> bytes) (sfb : bytes -> K) (P : proto K) sch n,
